@@ -75,12 +75,24 @@ def r4_1(ctx, rc):
         val = {}
         ok = True
         for pol, atom, func, cn in facts:
-            k = _kernel_call(ctx, atom, func, ('is_file', 'is_dir'))
+            a = ctx.H.subst(atom, func, cn)
+            k = _kernel_call(ctx, a, func, ('is_file', 'is_dir'))
             if k is None:
                 ok = False
             else:
                 val[k] = (pol == 'T')
         kind = sg.nodes[path[-1]].kind
+        if kind == 'exit_n':
+            # `return <local>`: the value of a kernel call made on the path
+            rets = [sg.nodes[p] for p in path if sg.nodes[p].kind == 'out'
+                    and sg.nodes[p].cn.kind == 'return']
+            if rets:
+                v = ctx.H.subst(rets[-1].cn.ast.value, F, rets[-1].cn)
+                k = _kernel_call(ctx, v, F, ('is_file', 'is_dir'))
+                if k is not None and k in val:
+                    kind = 'exit_t' if val[k] else 'exit_f'
+                else:
+                    ok = False
         rows.append((val, kind, ok, path))
     for f in (True, False):
         for d in (True, False):
@@ -108,6 +120,7 @@ def r4_1(ctx, rc):
     # both kernel calls receive the same path and the caller's overlay
     calls = [c for c in ctx.prog.calls_in(F)
              if _kernel_call(ctx, c, F, ('is_file', 'is_dir'))]
+    calls = sorted(calls, key=lambda c: c.lineno)
     key = 'exists passes the same (path, overlay) to both predicates'
     if len(calls) >= 2 and len({ast.dump(ast.Tuple(
             elts=c.args, ctx=ast.Load())) for c in calls}) == 1 and all(
@@ -273,13 +286,31 @@ def r4_3(ctx, rc):
                   for g in prog.resolve_call(c, W))]
     key = 'walk: recursion only into the directory list'
     ok = bool(rec)
+    from .c02 import _slice_names
     for c in rec:
         cn = ctx.H.node_of(W, c)[0]
-        org = ctx.H.origins(c.args[0], W, cn)
-        loopvars = [n for n in ast.walk(W.node) if isinstance(n, ast.For) and
-                    isinstance(n.iter, ast.Name) and n.iter.id == dirs_name]
-        inside = any(any(c is x for x in ast.walk(lp)) for lp in loopvars)
-        if not inside:
+        names = {n.id for n in ast.walk(c.args[0])
+                 if isinstance(n, ast.Name)}
+        grew = True
+        while grew:
+            grew = False
+            for n in ast.walk(W.node):
+                add = set()
+                if isinstance(n, ast.Assign) and any(
+                        isinstance(t, ast.Name) and t.id in names
+                        for t in n.targets):
+                    add = {x.id for x in ast.walk(n.value)
+                           if isinstance(x, ast.Name)}
+                elif isinstance(n, (ast.For, ast.comprehension)):
+                    tg = {x.id for x in ast.walk(n.target)
+                          if isinstance(x, ast.Name)}
+                    if tg & names:
+                        add = {x.id for x in ast.walk(n.iter)
+                               if isinstance(x, ast.Name)}
+                if not add <= names:
+                    names |= add
+                    grew = True
+        if dirs_name not in names or files_name in names:
             ok = False
         if len(c.args) < 3 or not any(
                 isinstance(a, ast.Name) and a.id == ov for a in c.args):
